@@ -1,10 +1,10 @@
 #!/bin/sh
-# sweep: every seeded change against its property's quick check
-cd /verif
+# tools/sweep.sh : every seeded change against its property's quick check (repository: $VERIF_REPO, default /repo)
+V=$(cd "$(dirname "$0")/.." && pwd)
+cd "$V"
 for d in seeded/*/; do
   [ -f $d/patch.diff ] || continue
-  case $d in seeded/*) n=$(basename $d); id=${n%-*};; *) id=$(basename $(dirname $d)); id=${id%-out}; n=$id-$(basename $d);; esac
-  r=$(tools/mutest.sh $PWD/$d/patch.diff $id 2>&1 | grep -E "violation\(s\)|apply|uncommitted")
-  case $d in /*) r=$(tools/mutest.sh $d/patch.diff $id 2>&1 | grep -E "violation\(s\)|apply|uncommitted");; esac
+  n=$(basename $d); id=${n%-*}
+  r=$(tools/mutest.sh $V/$d/patch.diff $id 2>&1 | grep -E "violation\(s\)|apply|uncommitted")
   echo "$n: $r"
 done
